@@ -1,6 +1,6 @@
 (* JsLex/SeqRegex.v — what the calls Next (returning '/' or '/=') and RegExp do to the lexer flags. *)
 From Verif Require Import Common.Base Common.Tactics Common.Lx Gen.Tables
-  JsLex.Model JsLex.Lemmas JsLex.Total JsLex.Next JsLex.Canon JsLex.Comment JsLex.Relex.
+  JsLex.Model JsLex.Lemmas JsLex.Total JsLex.Next JsLex.Canon JsLex.Comment JsLex.Relex JsLex.Exchange JsLex.Regexp JsLex.Stops.
 From Coq Require Import ZifyBool.
 
 Lemma emit_inv' s z ty ty' od s' : emit s z ty = Ok ((ty', od), s') -> ty' = ty /\ s' = set_cur s (skip z).
@@ -41,3 +41,57 @@ Proof.
     specialize (K _ Hin). cbn [snd] in K. unfold DivToken, DivEqToken in *. lia.
 Qed.
 End SeqRegex.
+
+(* --- regular expression flags: ASCII identifier characters and ID_Continue runes ------------------------ *)
+Lemma tab_cont_ascii c : 128 <= c -> tab_cont c = false.
+Proof.
+  intros H. destruct (Z.ltb_spec c 256) as [Hc|Hc].
+  - assert (F : forallb (fun c => negb (tab_cont c)) (zrange 128 255) = true) by (vm_compute; reflexivity).
+    rewrite forallb_forall in F. specialize (F c (zrange_in 128 255 c ltac:(lia))). destruct (tab_cont c); [discriminate|reflexivity].
+  - unfold tab_cont. replace (c <? 0) with false by lia. apply nth_overflow.
+    assert (L : length js_identifier_table = 256%nat) by (vm_compute; reflexivity). rewrite L. lia.
+Qed.
+
+Section Flags.
+Variable id_cont : Z -> bool.
+
+(* RegularExpressionFlags at byte level: ASCII identifier characters, and complete non-ASCII characters ch
+   (decoded on their own: PeekRune gives r and the length of ch) that are ID_Continue, ZWNJ or ZWJ *)
+Inductive re_flags : list Z -> Prop :=
+| rf_nil : re_flags []
+| rf_ascii c fl : tab_cont c = true -> re_flags fl -> re_flags (c :: fl)
+| rf_rune ch r fl : 192 <= hd 0 ch -> no_trunc ch = true -> peek_rune (ch ++ [0]) = Ok (r, len ch) ->
+    idc_rune id_cont r = true -> re_flags fl -> re_flags (ch ++ fl).
+
+Lemma re_flags_ascii flags : Forall (fun c => tab_cont c = true) flags -> re_flags flags.
+Proof. induction 1; [apply rf_nil|apply rf_ascii; assumption]. Qed.
+
+Lemma flags_loop_gen flags R' : re_flags flags -> R' <> [] -> re_flag1 id_cont R' = Ok 0 ->
+  forall fuel, (length flags < fuel)%nat -> rep (re_flag1 id_cont) fuel (flags ++ R') = Ok (len flags).
+Proof.
+  intros Hf HR' Hstop. induction Hf as [|c fl Hc Hf IH|ch r fl H192 Hnt Hr Hidc Hf IH]; intros fuel Hl;
+    (destruct fuel as [|fuel]; [cbn [length] in Hl; lia|]); cbn [rep].
+  - cbn [app]. rewrite Hstop. cbn [rbind]. reflexivity.
+  - cbn [app]. unfold re_flag1 at 1. rewrite pkl_cons_0. cbn [rbind]. rewrite Hc. cbn [rbind]. change (1 <=? 0) with false. cbv iota.
+    rewrite skipz_1_cons. rewrite IH by (cbn [length] in Hl; lia). cbn [rbind]. rewrite len_cons. reflexivity.
+  - assert (Hne : ch <> []) by (intros ->; cbn [hd] in H192; lia).
+    assert (HR2 : fl ++ R' <> []) by (destruct fl; [cbn [app]; assumption|discriminate]).
+    destruct (peek_rune_local2 ch [0] (fl ++ R') r (len ch) Hnt Hne Hr ltac:(discriminate) HR2) as (Hr' & _).
+    pose proof (peek_rune_pos _ _ _ Hr) as Hpos.
+    rewrite <- app_assoc. unfold re_flag1 at 1.
+    destruct ch as [|c0 ch']; [congruence|]. cbn [hd] in H192. cbn [app]. rewrite pkl_cons_0. cbn [rbind].
+    rewrite (tab_cont_ascii c0) by lia. replace (192 <=? c0) with true by lia.
+    change (c0 :: ch' ++ fl ++ R') with ((c0 :: ch') ++ fl ++ R'). rewrite Hr'. cbn [rbind].
+    unfold idc_rune in Hidc. rewrite Hidc. cbn [rbind].
+    replace (len (c0 :: ch') <=? 0) with false by lia. rewrite skipz_app_exact.
+    rewrite IH by (rewrite app_length in Hl; unfold len in Hpos; lia). cbn [rbind]. f_equal. rewrite !len_cons, len_app. lia.
+Qed.
+
+Lemma flags_run_gen flags r0 rest : re_flags flags -> wfl (r0 :: rest) -> flag_stop id_cont (r0 :: rest) ->
+  flags_run id_cont flags r0 rest.
+Proof.
+  intros Hf Hw Hs fuel Hl. apply flags_loop_gen; [assumption|discriminate| |assumption].
+  apply flag_stop_ok; assumption.
+Qed.
+
+End Flags.
